@@ -22,7 +22,10 @@ SAFE_DELIMS = [
 ]
 TAG_NAMES = [("tl", "rm"), ("time-limited", "removal-marker"), ("期限", "印"), ("t.l", "r+m"), ("T", "R")]
 
-WORDS = ["foo", "bar();", "x = 1", "baz", "日本語", "é;", "return", "}", "{", "if (a) {", "𝄞 y", "a_b"]
+# the last three: characters whose code point ends in the byte of a line break / blank / tab / angle bracket
+# (U+4E0A, U+010A, U+0120, U+0109, U+013C, U+013E) - a `c as u8` comparison would take them for those
+WORDS = ["foo", "bar();", "x = 1", "baz", "日本語", "é;", "return", "}", "{", "if (a) {", "𝄞 y", "a_b",
+         "上 Ċ", "Ġĉ z", "ļ ľ"]
 
 
 def atoms_for(ds, de):
